@@ -120,6 +120,13 @@ def view_ids(rec):
 
 
 def handle_str(rec):
+    try:
+        return _handle_str(rec)
+    except BaseException as e:  # noqa: BLE001 - a broken object must not crash the harness
+        return "!" + exc_name(e)
+
+
+def _handle_str(rec):
     if rec is None or rec._closed:
         return "closed"
     fs = []
@@ -259,7 +266,8 @@ def run_ops(ops, exempt_after_w=True, keep=None):
             # ---- commit events: the file set + dump at that moment
             if out == "ok" and is_open and kind in ("commit",) and r.get("files"):
                 commits.append((i, list(r["files"]), r["full"], last_cls))
-            if out == "ok" and kind == "close" and op[1] and len(recs) >= 2 and recs[-2].get("files") and "rw=1" in recs[-2]["h"]:
+            if (out == "ok" and kind == "close" and op[1] and len(recs) >= 2 and recs[-2].get("files") and "rw=1" in recs[-2]["h"]
+                    and after.get(recs[-2]["files"][-1], ("", "?"))[1] == "c"):
                 commits.append((i, list(recs[-2]["files"]), recs[-2]["full"], last_cls))
             if out == "ok" and kind == "merge" and r.get("full") is not None:
                 commits.append((i, [op[1] + ".ih5"], r["full"], last_cls))
